@@ -468,9 +468,48 @@ fn tuple_positions() -> R {
 
 const VARIANT_CASES: usize = 14;
 
+
+/// zero-sized elements: a slice may hold up to usize::MAX of them (no bytes are addressed); every conversion keeps the length
+fn huge_zst_case(n: usize) -> R {
+    // a dangling, well-aligned pointer is all a slice of zero-sized elements needs
+    let p = std::ptr::NonNull::<Zst>::dangling().as_ptr();
+    let s: &[Zst] = unsafe { std::slice::from_raw_parts(p, n) };
+    let m: &mut [Zst] = unsafe { std::slice::from_raw_parts_mut(p, n) };
+    let r = CSliceRef::from_slice(s);
+    ensure!(r.len() == n && r.as_slice().len() == n, "slice:zst_len", "CSliceRef over {} zero-sized elements reports {} / converts back to {}", n, r.len(), r.as_slice().len());
+    let back: &[Zst] = r.into();
+    ensure!(back.len() == n && back.as_ptr() == p as *const Zst, "slice:zst_len", "From<CSliceRef> for &[T]: {} zero-sized elements came back as {}", n, back.len());
+    let c: CSliceMut<Zst> = m.into();
+    ensure!(c.len() == n && (*c).len() == n, "slice:zst_len", "CSliceMut over {} zero-sized elements reports {} / derefs to {}", n, c.len(), (*c).len());
+    let r2: CSliceRef<Zst> = (&c).into();
+    ensure!(r2.len() == n, "slice:zst_len", "CSliceMut -> CSliceRef: {} became {}", n, r2.len());
+    let back: &mut [Zst] = c.into();
+    ensure!(back.len() == n, "slice:zst_len", "From<CSliceMut> for &mut [T]: {} zero-sized elements came back as {}", n, back.len());
+    let m2: &mut [Zst] = unsafe { std::slice::from_raw_parts_mut(p, n) };
+    let c2: CSliceMut<Zst> = m2.into();
+    let back: &[Zst] = c2.into();
+    ensure!(back.len() == n, "slice:zst_len", "From<CSliceMut> for &[T]: {} zero-sized elements came back as {}", n, back.len());
+    Ok(digest(&n))
+}
+
+const HUGE: [usize; 8] = [0, 1, isize::MAX as usize - 1, isize::MAX as usize, isize::MAX as usize + 1, usize::MAX / 2 + 7, usize::MAX - 1, usize::MAX];
+
 fn main() {
     quiet_panics();
     let sections = vec![
+        Section {
+            name: "huge_zst_slices",
+            explore: Box::new(|cx: &Cx| {
+                cx.rule("huge_zst_slices", "slices of a zero-sized element type with lengths around isize::MAX and up to usize::MAX (legal: no bytes are addressed) through every conversion of CSliceRef / CSliceMut: the length survives");
+                for n in HUGE {
+                    cx.eval("huge_zst_slices", &serde_json::json!({"zst_len": n.to_string()}), || run_alloc(|| huge_zst_case(n), n > 0));
+                }
+            }),
+            replay: Box::new(|case: &Value| {
+                let n: usize = case["zst_len"].as_str().unwrap().parse().unwrap();
+                run_alloc(|| huge_zst_case(n), n > 0)
+            }),
+        },
         Section {
             name: "slices",
             explore: Box::new(|cx: &Cx| {
